@@ -80,6 +80,31 @@ func genC08(tier string, r *rng, emit func(string)) {
 			}
 		}
 	}
+	// (1c) lengths around the block sizes of unrolled loops, and ranks 5 and 6
+	for _, dt := range []string{"f64", "f32", "i"} {
+		for _, n := range []int{1, 2, 3, 4, 5, 7, 8, 9, 15, 16, 17, 31, 32, 33, 63, 64, 65} {
+			for _, k := range []string{"sum", "max", "min"} {
+				emit(fmt.Sprintf("prog %s new:rm:%d:-5;reduce:%s:0:0", dt, n, k))
+				if n <= 17 {
+					emit(fmt.Sprintf("prog %s new:rm:%d,3:-5;reduce:%s:0:0", dt, n, k))
+					emit(fmt.Sprintf("prog %s new:rm:3,%d:-5;reduce:%s:0:1", dt, n, k))
+					emit(fmt.Sprintf("prog %s new:rm:2,%d,2:-5;reduce:%s:0:1", dt, n, k))
+				}
+			}
+			emit(fmt.Sprintf("prog %s new:rm:%d:-5;setat:0:%d:90;arg:max:0:0", dt, n, n/2))
+			emit(fmt.Sprintf("prog %s new:rm:%d:-5;setat:0:%d:-90;arg:min:0:-1", dt, n, n-1))
+		}
+		for _, sh := range []string{"2,1,2,1,2", "1,2,2,2,2", "2,2,1,2,1,2"} {
+			nd := len(ints(sh))
+			for ax := 0; ax < nd; ax++ {
+				emit(fmt.Sprintf("prog %s new:rm:%s:-5;reduce:sum:0:%d", dt, sh, ax))
+				emit(fmt.Sprintf("prog %s new:rm:%s:-5;reduce:max:0:%d", dt, sh, ax))
+				emit(fmt.Sprintf("prog %s new:rm:%s:-5;arg:min:0:%d", dt, sh, ax))
+			}
+			emit(fmt.Sprintf("prog %s new:rm:%s:-5;reduce:sum:0:0,2,4", dt, sh))
+			emit(fmt.Sprintf("prog %s new:rm:%s:-5;reduce:min:0:_", dt, sh))
+		}
+	}
 	// (2) operand layouts as in C06, values with ties (tokens folded modulo 3 through a min with
 	// a scalar is not available: ties come from setat), random axis subsets
 	m := 6000
